@@ -55,6 +55,10 @@ let runners : (string * (z list -> z list)) list = [
   "rw", run_rw;
   "simple", run_simple;
   "allot", run_allot;
+  "msizes", run_msizes;
+  "mseq", run_mseq;
+  "llo", run_llo;
+  "guards", run_guards;
 ]
 
 let () =
